@@ -127,6 +127,18 @@ def install(events, spec):
             genfile_breaks.LOG_COUNTS["timeouts_during_assertion_generation"] += genfile_breaks.LOG_COUNTS["executor_warnings"] - before
 
     ag.AssertionGenerator._add_assertions = add_assertions
+
+    # the filtering pass: a result with the timeout flag carries an empty verification trace, so *nothing* is removed
+    mangled = "_AssertionGenerator__remove_non_holding_assertions"
+    orig_remove = ag.AssertionGenerator.__dict__[mangled].__func__
+
+    def remove_non_holding(test, result):
+        genfile_breaks.LOG_COUNTS["filter_results"] += 1
+        if getattr(result, "timeout", False):
+            genfile_breaks.LOG_COUNTS["filter_results_with_timeout"] += 1
+        return orig_remove(test, result)
+
+    setattr(ag.AssertionGenerator, mangled, staticmethod(remove_non_holding))
     gen._generate_assertions = generate_assertions
     gen._minimize_assertions = minimize_assertions
     gen._minimize = minimize
